@@ -420,7 +420,7 @@ def cond_facts(cfg: CFG, extra_kill: Optional[Callable[[Node], Set[str]]] = None
         if node.kind == 'cond':
             if label in ('T', 'F'):
                 killed = kill(facts, mutated_bases(node.ast) | _walrus(node.ast))
-                return killed | {(cnorm(node.ast), label == 'T')}
+                return killed | _cond_facts_of(node.ast, label == 'T')
             return facts
         if node.kind in ('stmt', 'for'):
             st = node.ast
@@ -495,6 +495,20 @@ def cnorm(e: ast.AST) -> str:
     return norm(e)
 
 
+def _cond_facts_of(test: ast.AST, polarity: bool) -> Set[Fact]:
+    """Facts established by one atomic condition.  `(x := e)` tested for truth says the same of `e` and of `x`
+    (the fact about `e` is what rules look for; the one about `x` holds until x is re-bound);  `(x := e) is None` likewise for the comparison."""
+    out: Set[Fact] = {(cnorm(test), polarity)}
+    if isinstance(test, ast.NamedExpr) and isinstance(test.target, ast.Name):
+        out.add((cnorm(test.value), polarity))
+        out.add((test.target.id, polarity))
+    elif isinstance(test, ast.Compare) and isinstance(test.left, ast.NamedExpr) and isinstance(test.left.target, ast.Name):
+        for repl in (test.left.value, ast.Name(id=test.left.target.id, ctx=ast.Load())):
+            c2 = ast.Compare(left=repl, ops=test.ops, comparators=test.comparators)
+            out.add((cnorm(ast.fix_missing_locations(ast.copy_location(c2, test))), polarity))
+    return out
+
+
 def _split(test: ast.AST, polarity: bool) -> Set[Fact]:
     """Atomic facts implied by test == polarity."""
     if isinstance(test, ast.UnaryOp) and isinstance(test.op, ast.Not):
@@ -511,7 +525,7 @@ def _split(test: ast.AST, polarity: bool) -> Set[Fact]:
                 out |= _split(v, False)
             return out
         return set()
-    return {(cnorm(test), polarity)}
+    return _cond_facts_of(test, polarity)
 
 
 def facts_at(cfg: CFG, IN: Dict[int, FrozenSet[Fact]], pm: Dict[int, ast.AST], node: ast.AST) -> Set[Fact]:
@@ -582,6 +596,20 @@ def def_value(cfg: CFG, def_node: int, name: str) -> Optional[ast.AST]:
     if nd.kind == 'stmt' and isinstance(st, ast.AnnAssign) and isinstance(st.target, ast.Name) \
             and st.target.id == name:
         return st.value
+    if nd.kind == 'stmt' and isinstance(st, ast.Assign) and len(st.targets) == 1 and isinstance(st.targets[0], (ast.Tuple, ast.List)) \
+            and isinstance(st.value, (ast.Tuple, ast.List)) and len(st.value.elts) == len(st.targets[0].elts):
+        # a, b = x, y  (not an exchange of the same names)
+        tn = {x.id for e in st.targets[0].elts for x in ast.walk(e) if isinstance(x, ast.Name)}
+        vn = {x.id for e in st.value.elts for x in ast.walk(e) if isinstance(x, ast.Name)}
+        if not (tn & vn):
+            for t, v in zip(st.targets[0].elts, st.value.elts):
+                if isinstance(t, ast.Name) and t.id == name:
+                    return v
+    if st is not None and nd.kind in ('cond', 'stmt'):
+        # (name := value) inside a condition or an expression statement
+        for x in ast.walk(st):
+            if isinstance(x, ast.NamedExpr) and isinstance(x.target, ast.Name) and x.target.id == name:
+                return x.value
     return None
 
 
